@@ -1,0 +1,7 @@
+//go:build !verif
+
+package io
+
+// verifPoint marks a step of the block hand-off protocol. It is an empty, inlinable
+// function unless the package is built with the "verif" tag (verification harness).
+func verifPoint(side, site int, id int32, counter *int32) {}
